@@ -11,7 +11,7 @@ use swc_core::{
         ast::*,
         atoms::Atom,
         utils::{private_ident, quote_ident, quote_str},
-        visit::{VisitMut, VisitMutWith},
+        visit::{VisitMut, VisitMutWith, VisitWith},
     },
     plugin::errors::HANDLER,
 };
@@ -1161,6 +1161,14 @@ where
             .iter()
             .for_each(|item| self.search_jsx_pragma(item.span()));
 
+        if self.options.resolve_type {
+            // a type may be declared after the `defineComponent` call that uses it
+            module.visit_with(&mut resolve_type::TypeDeclCollector {
+                interfaces: &mut self.interfaces,
+                type_aliases: &mut self.type_aliases,
+            });
+        }
+
         module.visit_mut_children_with(self);
 
         if !self.injecting_consts.is_empty() {
@@ -1419,34 +1427,6 @@ where
         });
         if let Some(ctxt) = ctxt {
             self.define_component = Some(ctxt);
-        }
-    }
-
-    fn visit_mut_ts_interface_decl(&mut self, ts_interface_decl: &mut TsInterfaceDecl) {
-        ts_interface_decl.visit_mut_children_with(self);
-        if self.options.resolve_type {
-            let key = (ts_interface_decl.id.sym.clone(), ts_interface_decl.id.ctxt);
-            if let Some(interface) = self.interfaces.get_mut(&key) {
-                interface
-                    .body
-                    .body
-                    .extend_from_slice(&ts_interface_decl.body.body);
-            } else {
-                self.interfaces.insert(key, ts_interface_decl.clone());
-            }
-        }
-    }
-
-    fn visit_mut_ts_type_alias_decl(&mut self, ts_type_alias_decl: &mut TsTypeAliasDecl) {
-        ts_type_alias_decl.visit_mut_children_with(self);
-        if self.options.resolve_type {
-            self.type_aliases.insert(
-                (
-                    ts_type_alias_decl.id.sym.clone(),
-                    ts_type_alias_decl.id.ctxt,
-                ),
-                (*ts_type_alias_decl.type_ann).clone(),
-            );
         }
     }
 
